@@ -155,7 +155,7 @@ class C15(Prop):
                 'DK.BridgeVec.GDevice_cost']      # T1v: vector method bodies (vk/translate_vec.py, DK/Lemmas/BridgeVec.lean)
   bridge = bridge + bridge_vec
   uses_t1 = True
-  rule = ('leaf of every shipped class x n (1..8 quick, ..31 thorough) x bounds with zero-width slots x scalar/vector parameters x '
+  rule = ('leaf of every shipped class x n (1..8 quick plus 5 % from {12,16,24,25,31,48}; ..60 thorough; 25 % of prices, interior flows and cost parameters are non-dyadic decimals) x bounds with zero-width slots x scalar/vector parameters x '
           'in-bounds flow (interior / mixed / per-slot on a bound) AND the flows exactly on the lower and on the upper bounds x '
           'scalar/vector price; IDevice also with non-integer exponents (oracle only). non-trivial: n >= 2 and a non-zero curve parameter')
   sizes = {'quick': 1000, 'thorough': 12000}
